@@ -65,6 +65,10 @@ SHAPES = {
     'mixed_ab': {'entries': ['a', 'b'], 'W': 4},
     'mixed_all': {'entries': ['a', 'b', 'a.in', 'b', 'b.out', 'a.out', 'a'], 'W': 4},
     'bare1': {'entries': ['b'], 'bare': True},          # Waveform(hw, name, wire) without a list
+    # the recorder is created after the simulator has already been obtained once (it must still be clocked)
+    'regq1_late': {'entries': ['b', 'b.q'], 'late': True},
+    # the watched register sits in a sub-block with its own (ungated) clock driver, served before the recorder's domain
+    'regq4_domain': {'entries': ['a.qport', 'a', 'a.q'], 'W': 4, 'domain': True},
 }
 
 RULE = ('one prefix tree per (watch-list shape, mode); mode split = every sequence of (value, n) calls clk(n) with the '
@@ -173,7 +177,14 @@ def build(shape):
             bufs[b] = py4hw.Buf(hw, 'buf_' + b, w, aux['r' + b])
         if b + '.q' in kinds or b + '.qport' in kinds:
             aux['q' + b] = hw.wire('q' + b, w.getWidth())
-            regs[b] = py4hw.Reg(hw, 'reg_' + b, w, aux['q' + b])
+            if sp.get('domain'):
+                g = py4hw.Logic(hw, 'dom_' + b)
+                g.clockDriver = py4hw.ClockDriver('clk_' + b, base=hw.clockDriver)
+                g.addIn('d', w)
+                g.addOut('q', aux['q' + b])
+                regs[b] = py4hw.Reg(g, 'reg_' + b, w, aux['q' + b])
+            else:
+                regs[b] = py4hw.Reg(hw, 'reg_' + b, w, aux['q' + b])
     objs, wires, specs = [], [], []
     for e in sp['entries']:
         b, _, k = e.partition('.')
@@ -196,6 +207,8 @@ def build(shape):
         specs.append((b, k, w.getWidth()))
     c.objs, c.wires, c.specs = objs, wires, specs
     c.widths = [s[2] for s in specs]
+    if sp.get('late'):
+        hw.getSimulator()
     c.wf = py4hw.Waveform(hw, 'wf', objs[0] if sp.get('bare') else list(objs))
     c.sim = hw.getSimulator()
     c.free = [c.base_wire[b] for b in bases]
